@@ -71,6 +71,8 @@ func Run(a ConstMatrix, args ...interface{}) (Matrix, Matrix, error) {
   // allocate memory
   if inSitu.L == nil {
     inSitu.L = NullDenseMatrix(t, n, n)
+  } else {
+    inSitu.L.Map(func(x Scalar) { x.SetFloat64(0.0) })
   }
   if ldl {
     if inSitu.D == nil {
